@@ -551,7 +551,7 @@ func (g *docGen) ruleFile() string {
 			top = append([]string{pick(g.r, []string{"5: x", "~: y", "true: z", "? [a]\n: b"})}, top...)
 		case 7:
 			g.note("defect:file:leading-doc")
-			top = append([]string{pick(g.r, []string{"--- {}", "--- ~", "---\nfoo: bar"}), "---"}, top...)
+			top = append([]string{pick(g.r, []string{"--- {}", "--- ~", "---\nfoo: bar", "---", "---\n# empty document"}), "---"}, top...)
 		case 8:
 			g.note("defect:file:group-null-or-scalar")
 			top = append(top, pick(g.r, []string{"- ~", "- abc", "- []", "-", "- 5", "- {}"}))
@@ -828,7 +828,8 @@ func (g *docGen) wrapOpts(list []string, levels int, allowDocs bool) wrapped {
 	// extra documents
 	var pre, post []string
 	if allowDocs && g.chance(0.25) {
-		pre = append(pre, pick(g.r, []string{"a: b", "- 1\n- 2", "# just a comment\nfoo: [1, 2]"}), "---")
+		// a document before the one with the rules, incl. empty ones (explicit start, nothing or only a comment inside)
+		pre = append(pre, pick(g.r, []string{"a: b", "- 1\n- 2", "# just a comment\nfoo: [1, 2]", "---", "---\n# nothing in this document", "--- # empty"}), "---")
 		desc = append(desc, "doc-before")
 	}
 	if allowDocs && g.chance(0.25) {
